@@ -23,6 +23,9 @@ hooks, API calls, send failures:
   most once, `cancelled r` at most once, never both.
 * `no_outcome_while_pending` — for such an id, while its response is still Queued or Paused (and the
   manager is not parked in that response's update-hook error) neither event has been emitted.
+* `after_outcome_nothing_pending` — once such an id has been reported completed or cancelled, no source of a
+  further outcome is left: no terminal status of it in any builder / publisher queue / parked or blocked
+  transaction, its response not Queued / Paused, no worker of it before its final status.
 * `outcome_sources_le_registrations` — the invariant itself: outcome events + everything that can still
   produce one (terminal statuses in parked / blocked transactions, message builders and publisher queues,
   Queued / Paused responses, task workers before their final status, pausing / cancelling FinishTask
@@ -143,6 +146,33 @@ theorem no_outcome_while_pending {c : Cfg} {s : State} (h : ReachableDrained c s
     rw [stOf_lookup hl]
     rcases hst with h | h <;> rw [h] <;> rfl
   omega
+
+/-- **C05.after_outcome_nothing_pending** ("afterwards the responder holds no state for it", the part that
+    follows from the outcome accounting).  Once an id registered once has been reported to the completed or
+    the cancelled listeners, nothing that could produce a further outcome is left anywhere in the model: its
+    response is not Queued / Paused (`entW`), no `newRequest` or update-hook error for it is parked and no
+    parked transaction carries a terminal status for it (`parkW`), no task worker of it is before its final
+    status or holds a terminal status in a blocked transaction (`wkSum`), no pausing / cancelling FinishTask
+    of it is in the mailbox (`mbSum`), and no message builder or publisher queue of any peer holds a
+    terminal status of it (`mqSum`). -/
+theorem after_outcome_nothing_pending {c : Cfg} {s : State} (h : ReachableDrained c s) (r : Id)
+    (hreg : registrations s r ≤ 1) (hout : 1 ≤ completedCount s r + cancelledCount s r) :
+    entW r s = 0 ∧ parkW r s.park = 0 ∧ wkSum r s.workers = 0 ∧ mbSum r s.workers s.mailbox = 0 ∧
+      mqSum r s.mqs = 0 := by
+  have := outcome_sources_le_registrations h r
+  refine ⟨by omega, by omega, by omega, by omega, by omega⟩
+
+/-- unfolding of `mqSum r s.mqs = 0`: no builder entry (in flight or accumulating) of any peer has a terminal
+    status queued for `r`, and no publisher queue holds a completed notification for `r` -/
+theorem mqSum_zero_iff (r : Id) (l : List PeerMQ) :
+    mqSum r l = 0 ↔ ∀ q ∈ l, tokB r q.inflight = 0 ∧ tokB r q.next = 0 ∧ tokQ r q.pubQ = 0 := by
+  induction l with
+  | nil => simp [mqSum]
+  | cons a l ih =>
+    simp only [mqSum, List.map_cons, List.sum_cons, List.mem_cons, forall_eq_or_imp] at ih ⊢
+    rw [← ih]
+    simp only [mqW]
+    omega
 
 -- ------------------------------------------------------------------ the weaker hypothesis is not enough
 /-- peer 1 re-uses the id of peer 0's request, cancelled after its task was popped: both StartTask messages
